@@ -26,7 +26,8 @@ package main
 //             tracked by the harness over the whole history)
 //  mount      same origin: containing dir first; overname mounts before all others
 //  recording  performed changes == planned changes; saved profile == kept + reported
-//             synthetic + successfully mounted, in order; fatal (layout/overname)
+//             synthetic + successfully mounted (as a multiset; the saved order is only
+//             judged through the unmount clause of later steps); fatal (layout/overname)
 //             failure returns an error and saves nothing
 
 import (
@@ -74,7 +75,9 @@ type c28Case struct {
 
 // ---- building entries -----------------------------------------------------------
 
-func c28DirKind(k string) bool { return k == "bind" || k == "rbind" || k == "tmpfs" || k == "ensure-dir" }
+func c28DirKind(k string) bool {
+	return k == "bind" || k == "rbind" || k == "tmpfs" || k == "ensure-dir"
+}
 
 func c28Entry(root string, e c28Ent) osutil.MountEntry {
 	dir := filepath.Join(root, "t", e.P)
@@ -182,11 +185,6 @@ type c28Live struct {
 }
 
 // ---- the plan oracle --------------------------------------------------------------
-
-type c28Finding struct {
-	err   error
-	known bool
-}
 
 type c28PlanInfo struct {
 	keeps, unmounts, mounts int
@@ -753,15 +751,50 @@ func c28Run(c c28Case) (o verifkit.Outcome, err error) {
 				seq++
 			}
 		}
+		// The statement fixes which entries are recorded, not their order: compare as
+		// multisets and carry the mount sequence numbers over to the saved order.
+		savedProf, perr := osutil.LoadMountProfileText(*ctx.saved)
+		if perr != nil {
+			note([]error{verifkit.Violatef("step %d: saved current profile does not parse back: %v\n%s", si, perr, *ctx.saved)})
+			break
+		}
 		var wantProf osutil.MountProfile
 		for _, l := range next {
 			wantProf.Entries = append(wantProf.Entries, l.e)
 		}
 		wantText, _ := osutil.SaveMountProfileText(&wantProf)
-		if wantText != *ctx.saved {
-			note([]error{verifkit.Violatef("step %d: saved current profile differs from kept + reported synthetic + mounted entries\nsaved:\n%swant:\n%s", si, *ctx.saved, wantText)})
+		wantLines := strings.Split(strings.TrimSuffix(wantText, "\n"), "\n")
+		savedLines := strings.Split(strings.TrimSuffix(*ctx.saved, "\n"), "\n")
+		if wantText == "" {
+			wantLines = nil
+		}
+		if *ctx.saved == "" {
+			savedLines = nil
+		}
+		okRec := len(wantLines) == len(savedLines) && len(savedLines) == len(savedProf.Entries)
+		var reordered []c28Live
+		if okRec {
+			taken := make([]bool, len(next))
+			for i, sl := range savedLines {
+				found := false
+				for j, wl := range wantLines {
+					if !taken[j] && wl == sl {
+						taken[j], found = true, true
+						reordered = append(reordered, c28Live{savedProf.Entries[i], next[j].seq})
+						break
+					}
+				}
+				if !found {
+					okRec = false
+					break
+				}
+			}
+		}
+		if !okRec {
+			note([]error{verifkit.Violatef("step %d: saved current profile is not kept + reported synthetic + successfully mounted entries\nsaved:\n%swant (any order):\n%s", si, *ctx.saved, wantText)})
 			break
 		}
+		next = reordered
 		live = next
 		curText = *ctx.saved
 	}
